@@ -5,12 +5,17 @@
    schema that tools/translate/c41_schema.py extracts from the source on every run (Gen/C41Schema.v).
    A configuration is a generic value (VR [fields in declaration order]); `save` writes the tree
    [ser], `load` reads it with [de].  serde_yaml's text layer (tree <-> YAML text, quoting of special
-   strings, number syntax) is an oracle tied in by the correspondence run.  `is_valid` is not
-   modelled: the case carries its result on the original configuration (save refuses an invalid
-   one), and the schema obligations show that no field it reads is skipped.  No proofs here. *)
+   strings, number syntax) is an oracle tied in by the correspondence run.  `is_valid` is modelled
+   in C41/Valid.v; the case also carries what the real is_valid said of the original configuration,
+   and a disagreement between the two shows as a model / implementation mismatch.
+
+   A case is run as a HISTORY on one file: the file already holds something longer (junk); an older
+   version of the configuration (the same but for one bit of one number) is saved and loaded; the
+   configuration itself is saved over it, loaded, and loaded a second time.  No proofs here. *)
 From Coq Require Import List ZArith Bool String.
 From OV Require Export C41.Schema.
 From OV Require Import Gen.C41Schema.
+From OV Require Export C41.Valid.
 Import ListNotations.
 Open Scope list_scope.
 Open Scope Z_scope.
@@ -93,14 +98,21 @@ Definition cksum (l : list Z) : Z :=
   fold_left (fun acc x => (acc * 1000003 + x + 7) mod 2305843009213693951) l 0.
 
 (* output:
+     [-9]                    the model of is_valid disagrees with what the real is_valid said (never
+                             produced by the implementation)
      [0]                     save refused the configuration (it is not valid)
      [-1] / [-2]             the serialiser reported an error: save returned Err / panicked (unwrap)
      [1; n; ck; 0]           the file did not load (n, ck: length and checksum of the written tree)
-     [1; n; ck; 1; eq; valid; same_tree]
+     [1; n; ck; 1; eq; valid; same_tree; older_eq; eq2]
    eq = `loaded == original`; valid = loaded.is_valid(); same_tree = the loaded configuration
-   serialises to the same tree *)
+   serialises to the same tree; older_eq = the older version, saved to the same path before, loaded
+   back equal to itself; eq2 = a second load of the file == original.  The older version differs
+   from the configuration in one number only, so it is equal to its own reload exactly when the
+   configuration is. *)
+Definition b2z (b : bool) : Z := if b then 1 else 0.
 Definition run_with (unwraps : bool) (c : case) : list Z :=
-  if negb (c_is_valid c) then [0]
+  if negb (Bool.eqb (c_is_valid c) (is_valid_m (c_kind c) (c_val c))) then [-9]
+  else if negb (c_is_valid c) then [0]
   else match ser cfg_schema FUEL (root c) (c_val c) with
        | None => [if unwraps then -2 else -1]
        | Some y =>
@@ -108,7 +120,9 @@ Definition run_with (unwraps : bool) (c : case) : list Z :=
            1 :: zlen e :: cksum e ::
            match de cfg_schema FUEL (root c) y with
            | None => [0]
-           | Some v' => [1; if val_eqb (c_val c) v' && negb (has_nan (c_val c)) then 1 else 0; 1; 1]
+           | Some v' =>
+               let eq := b2z (val_eqb (c_val c) v' && negb (has_nan (c_val c))) in
+               [1; eq; b2z (is_valid_m (c_kind c) v'); 1; eq; eq]
            end
        end.
 Definition run : case -> list Z := run_with save_unwraps_serializer.
@@ -121,16 +135,17 @@ End Legacy.
 (* the quantifier: a valid configuration, well-formed for its schema (paths valid UTF-8, integers in
    their type's range, maps and sets in key order as BTreeMap / BTreeSet keep them), no NaN limit *)
 Definition inscope (c : case) : bool :=
-  c_is_valid c && ((c_kind c =? 0) || (c_kind c =? 1)) &&
+  c_is_valid c && is_valid_m (c_kind c) (c_val c) && ((c_kind c =? 0) || (c_kind c =? 1)) &&
   wt cfg_schema false FUEL (root c) (c_val c) && negb (has_nan (c_val c)).
 
-(* the property: the file loads, the loaded configuration equals the original and is valid *)
+(* the property: the file loads, the loaded configuration equals the original and is valid — whatever
+   the file held before, and every time it is loaded *)
 (* ... and saving never panics, whatever the configuration holds *)
 Definition oracle (c : case) (out : list Z) : bool :=
   negb (list_eqb out [-2]) &&
   (if negb (inscope c) then true
    else match out with
-        | 1 :: _ :: _ :: rest => list_eqb rest [1; 1; 1; 1]
+        | 1 :: _ :: _ :: rest => list_eqb rest [1; 1; 1; 1; 1; 1]
         | _ => false
         end).
 
